@@ -18,6 +18,7 @@ inductive Err where
   | indexError
   | validationError
   | overflowError
+  | zeroDivisionError
 deriving DecidableEq, Repr, Inhabited
 
 deriving instance DecidableEq for Except
@@ -28,6 +29,7 @@ def Err.render : Err → String
   | .indexError => "IndexError"
   | .validationError => "ValidationError"
   | .overflowError => "OverflowError"
+  | .zeroDivisionError => "ZeroDivisionError"
 
 /-- a raw candidate coordinate -/
 inductive Raw where
